@@ -301,7 +301,14 @@ class C18(Machine):
                 a['load_how'] = rng.choice(['load', 'cache'])
                 if a['load_how'] == 'cache':
                     inv['save'] = a['load']
-                if rng.random() < 0.5:
+                # --clean deletes the field files of a file-based simulation;
+                # unless the cleaned state is saved back (--cache) the saved
+                # file keeps pointing to them (the shared-file_dir finding of
+                # C12), so that combination is not generated
+                fb = any(p['sections'].get('simulation', {}).get('file_dir')
+                         for p in prev)
+                if rng.random() < 0.5 and (not fb or
+                                           a['load_how'] == 'cache'):
                     a['clean'] = True
                     inv['model_version'] = len(prev) + 1
             elif r < 0.8 or j == 0:
